@@ -145,6 +145,8 @@ def analyse_application(rule, rid, before, after, reported, pseudo=False):
     cb = [x for x in lb if x.kind not in lexer.COMMENT_KINDS]
     ka = [(x.kind, _comment_norm(x.value)) for x in la if x.kind in lexer.COMMENT_KINDS]
     kb = [(x.kind, _comment_norm(x.value)) for x in lb if x.kind in lexer.COMMENT_KINDS]
+    code_lines = set(x.line for x in la if x.kind not in lexer.COMMENT_KINDS)
+    trailing_a = [x.line in code_lines and x.kind == "comment" for x in la if x.kind in lexer.COMMENT_KINDS]
     groups = tuple(getattr(rule, "groups", ())) if rule is not None else ()
     phase = getattr(rule, "phase", None)
 
@@ -161,7 +163,7 @@ def analyse_application(rule, rid, before, after, reported, pseudo=False):
 
     # ---- C02
     if ka != kb:
-        kind, det = _classify_comments(rid, ka, kb, rule)
+        kind, det = _classify_comments(rid, ka, kb, rule, trailing_a)
         if kind is not None:
             det = dict(det, rule=rid)
             _add("C02", {"site": site_of(rule, rid), "kind": kind}, det)
@@ -176,7 +178,7 @@ def analyse_application(rule, rid, before, after, reported, pseudo=False):
         _c07(rule, rid, before, after, reported)
 
 
-def _classify_comments(rid, ka, kb, rule):
+def _classify_comments(rid, ka, kb, rule, trailing_a=None):
     from harness import tables
 
     norm_a = [(k, _ws_norm_comment(v)) for k, v in ka]
@@ -189,6 +191,13 @@ def _classify_comments(rid, ka, kb, rule):
     if len(kb) < len(ka):
         removed = _multiset_diff(norm_a, norm_b)
         if tables.comment_remover_allowed(rid, rule) and _is_subsequence(norm_b, norm_a):
+            # the documented removers only drop comments at the end of a code line (component_019 / port_map_010) or inside
+            # the aggregate they collapse; an own-line comment must survive the former
+            if rid in tables.trailing_only_removers() and trailing_a is not None:
+                own_line_lost = [x for x, t in zip(norm_a, trailing_a) if not t]
+                own_line_left = [x for x in norm_b]
+                if not _is_subsequence(own_line_lost, own_line_left):
+                    return "own_line_comment_lost", {"lost": _multiset_diff(own_line_lost, own_line_left)[:3]}
             return None, None
         return "comment_lost", {"lost": removed[:3], "n": (len(ka), len(kb))}
     if len(kb) > len(ka):
